@@ -27,6 +27,7 @@ META = {
                     "enumerated sequence"],
 }
 REQUIRED_CLASSES = ["history:near_half_turn"]
+REQUIRED_REACH = ['general/faser_transform.py:tm.__init__', 'general/faser_transform.py:tm.sTM', 'general/faser_transform.py:tm.sTAA', 'general/faser_transform.py:tm.__setitem__', 'general/faser_transform.py:tm.setQuat', 'general/faser_transform.py:tm.inv', 'general/faser_transform.py:tm.__matmul__', 'general/faser_transform.py:tm.__floordiv__']
 REQUIRED_CLAUSES = ["inv.shape", "inv.lastrow", "inv.rot", "inv.pos", "inv.exp", "inv.index", "model.pose"]
 
 # ----------------------------------------------------------------------------- palette
